@@ -21,7 +21,8 @@ from harness.project import big
 MAXW = 15            # |v| = w <= MAXW  (spec constant MaxW)
 MAXP = 64            # energy numerators p <= MAXP (spec constant MaxP)
 VOLS = 10 ** 8       # resolution of the volume enclosure (spec constant VolS)
-TOL = 1e-9           # residual bound of the projection (units of 1/Q); >= 100x the measured noise
+TOL = 1e-8           # residual bound of the projection (units of 1/Q): > 100x the measured noise (2e-11)
+                     # and < 1/(2 M^2) = 4.4e-8, the uniqueness radius for denominators <= M = 15^3
 RESUNIT = 1e-15
 
 CONSTS = "  MaxW = %d\n  MaxP = %d\n  VolS = %d\n" % (MAXW, MAXP, VOLS)
@@ -154,6 +155,19 @@ def generic_recipes(rng, count, fmin, fmax):
     return out
 
 
+def noncentro_recipes(rng, count, fmin, fmax):
+    """Facet sets without centrosymmetric completion; TLC decides whether they bound a finite region
+    (OOD unbounded otherwise)."""
+    out = []
+    qs = quads()
+    for _ in range(count):
+        nf = rng.randrange(fmin, fmax + 1)
+        dirs = [d if rng.random() < 0.5 else (-d[0], -d[1], -d[2], d[3]) for d in rng.sample(qs, nf)]
+        facets = [[x, y, z, w, rng.randint(8, 16)] for (x, y, z, w) in dirs]
+        out.append({"kind": "generic-noncentro", "Q": 8, "facets": facets, "scale": pick_scale(rng)})
+    return out
+
+
 def _det(a, b, c):
     return (a[0] * (b[1] * c[2] - b[2] * c[1]) - a[1] * (b[0] * c[2] - b[2] * c[0])
             + a[2] * (b[0] * c[1] - b[1] * c[0]))
@@ -178,7 +192,7 @@ class Projector:
         fr = []
         for c in y:
             c = float(c)
-            if not math.isfinite(c) or abs(c) > 1e7:
+            if not math.isfinite(c) or abs(c) > 6e5:      # beyond any Cramer numerator of the domain
                 self.offgrid = True
                 return [0, 0, 0, 1]
             f = Fraction(c).limit_denominator(self.M)
@@ -267,6 +281,7 @@ CONSTANTS
   MaxW = 15
   MaxP = 64
   VolS = 207360000
+  VertexFormula = "%s"
 INVARIANT TypeOK
 INVARIANT DualIsCramer
 INVARIANT VerticesAreIntersection
@@ -280,12 +295,37 @@ INVARIANT ScalingLaw
 """
 
 
+def mc_recipes(res):
+    """(G) spec -> code: the instances enumerated by MC_Wulff (printed by the model as JSON)."""
+    import json
+    out = []
+    for line in res.printed:
+        if line.startswith("SHAPES|"):
+            d = json.loads(line[len("SHAPES|"):])
+            for sh in d["shapes"]:
+                for sc in d["scales"]:
+                    out.append({"kind": "mc:" + sh["name"], "Q": sh["Q"],
+                                "facets": [list(f) for f in sh["facets"]], "scale": list(sc)})
+    if not out:
+        raise tlc.TLCFailure("MC_Wulff did not print its instances")
+    return out
+
+
 def run(ctx, explain=False):
-    ctx.model_check("mc/MC_Wulff.tla", MC_CFG, name="MC_Wulff(named polyhedra, pipeline, scaling)",
-                    timeout=600)
+    res = ctx.model_check("mc/MC_Wulff.tla", MC_CFG % "code", name="MC_Wulff(named polyhedra, pipeline, scaling)",
+                          timeout=900)
+    from_model = mc_recipes(res)
+    if explain:
+        bad = tlc.run("mc/MC_Wulff.tla", MC_CFG % "wrong-column", timeout=900)
+        print("deviation 'energy taken from another corner of the dual simplex': MC_Wulff violates",
+              bad.violated)
+        for line in bad.stdout.splitlines():
+            if line.startswith("/\\ sh =") or line.startswith("/\\ sc =") or line.startswith("/\\ phase ="):
+                print("   ", line)
     n_named = ctx.pick(76, 380)
     n_small = ctx.pick(240, 1200)
-    recipes = named_recipes(ctx.rng, n_named) + generic_recipes(ctx.rng, n_small, 6, 20)
+    recipes = from_model + named_recipes(ctx.rng, n_named) + generic_recipes(ctx.rng, n_small, 6, 20)
+    recipes += noncentro_recipes(ctx.rng, ctx.pick(24, 200), 8, 24)
     if not ctx.quick:
         recipes += generic_recipes(ctx.rng, 400, 22, 40) + generic_recipes(ctx.rng, 240, 42, 60)
     traces = pool_map(drive, recipes)
